@@ -10,8 +10,15 @@
                   (ListTools, ttl expiry on the synctest clock, the server replacing / moving the tool, list_changed) on the
                   real Client / StreamableClientTransport and the real stateless handler behind a wire-faithful in-process
                   RoundTripper and then makes the call; HeaderMirrorMon judges the real outcomes.
+    HeaderMirrorHist: the history machine as a behaviour spec (listing split into ListSent / ListAnswered / ListDelivered
+                  per page, ToolChanged, NotifiedDelivered, the cache's generation counter): TLC enumerates every history of
+                  <= MaxLen steps, checks the design facts on each and exports the histories in which something falls inside
+                  a listing (the RoundTripper holds the tools/list request / its answer and the list_changed notification
+                  until the history says so).  HeaderMirrorHist_coldnobump.cfg ("invalidate leaves the generation alone on
+                  an empty cache") must fail: sensitivity witness.
+(a) and (b) run side by side (two threads; every TLC / go test is a process of its own).
 """
-import collections, json, os, re
+import collections, concurrent.futures, json, os, re
 import vlib
 
 PID = "C12"
@@ -20,6 +27,9 @@ GATE_REPS = {"quick": 2, "thorough": 2}
 MIRROR_REPS = {"quick": 1, "thorough": 1}
 MIRROR_BASE_REPS = {"quick": 1, "thorough": 4}     # the baseline history (listed just now) x complete table
 MIRROR_HIST = {"quick": (3, "FALSE"), "thorough": (4, "TRUE")}   # HistLen, FullCross
+# HeaderMirrorHist: MaxLen (facts on every history), RaceLen / NoticeLen / DriftLen (histories with something inside a listing that
+# are exported: informed / informed by notice / any)
+RACE = {"quick": (6, 5, 6, 3), "thorough": (8, 7, 8, 4)}
 BASELINE = {"ttl": "none", "page": "first", "sub": False, "steps": ["list"]}
 HARNESS = ["mcp/c12_httpgate_test.go"]
 DIMS = ["listener", "host", "ctype", "accept", "body", "vhdr", "meta", "mm", "mn", "mp", "msg"]
@@ -65,8 +75,8 @@ def mirror_sig(e, src=None):
     o = e["o"]
     if src:
         # where the definition the client was given last sits, and which definition the request shows
-        return "mirror:history=def@%s-page,%s,%s%s:%s,via=%s" % (src["page"], src["age"], src["rev"], ",orphan" if src["orphan"] else "",
-                                                             mirror_how(e), o["via"])
+        return "mirror:history=def@%s-page,%s,%s%s%s:%s,via=%s" % (src["page"], src["age"], src["rev"], ",orphan" if src["orphan"] else "",
+                                                               ",told" if src.get("told") else "", mirror_how(e), o["via"])
     if not o["sibok"] or not o["own"]:
         # a header carries the value of another parameter (or a sibling was refused / altered)
         return "mirror:depth=%d,siblings=%d:%s" % (e["c"]["depth"], e["c"]["nsib"], "crossed" if o["sent"] else "not-sent")
@@ -103,7 +113,7 @@ def key(c):
 
 
 def run_go(test, cases_path, obs_path, seed, reps, timeout):
-    rc, gout, wall = vlib.go_test("mcp", "^%s$" % test, HARNESS, timeout=timeout,
+    rc, gout, wall = vlib.go_test("mcp", "^%s$" % test, HARNESS, timeout=timeout, parallel=4,
                                   env={"VERIF_IN": cases_path, "VERIF_OUT": obs_path, "VERIF_SEED": seed, "VERIF_REPS": reps})
     vlib.go_must_build(rc, gout, PID)
     return rc, gout, wall
@@ -111,6 +121,12 @@ def run_go(test, cases_path, obs_path, seed, reps, timeout):
 
 def slim(rows, path, okeys):
     vlib.write_ndjson(path, [{"c": r["c"], "o": {k: r["o"][k] for k in okeys}} for r in rows])
+
+
+class _Stop(Exception):
+    """a pipeline found something that ends the run with a violation (an SDK panic)"""
+    def __init__(self, sig, desc, obj):
+        self.args3 = (sig, desc, obj)
 
 
 def run(tier, seed, replay):
@@ -127,11 +143,19 @@ def run(tier, seed, replay):
         "(all its pages have the same age), ttlMs (1 s / 2.5 s / 30 s) expires only in 'wait' steps (ttl, ttl+1ms or 3*ttl) and a "
         "'change' / 'shrink' costs 50 ms (the server's 10 ms list_changed debounce); 'change' = the server replaces the tool with "
         "every x-mcp-header renamed, 'shrink' = the server removes the page of tools listed before it",
-        "part (b) scope: Agreement is demanded when the client is Informed (it listed the tool, was not told since that the list "
-        "changed, and the last tools/list answer it obtained for the tool carries the definition the server enforces). A client that "
-        "never listed the tool, whose cache was cleared by list_changed, or that holds only an outdated definition sends no usable "
-        "Mcp-Param-* header (lookupTool: 'nil if no such tool has been seen'; the SDK learns schemas from ListTools only) - that is "
-        "modelled (ExpectedSet) and compared as drift, not judged",
+        "part (b) split listings: the RoundTripper holds a tools/list request of the application's background listing before it "
+        "reaches the server ('send' .. 'answer'), holds the complete answer ('answer' .. 'deliver') and keeps the "
+        "notifications/tools/list_changed events of the subscriptions/listen stream back until 'notify'; only the two pages the model "
+        "follows are held (no cursor; the cursor after the last first-page filler) - pages after the tools' page pass freely and are "
+        "not modelled; a step that finds nothing to act on in the real run (possible only when the real cache differs from the "
+        "model's) is skipped and noted in conc.history",
+        "part (b) scope: Agreement is demanded when the client is Informed: (by answer) it listed the tool, was not told since that "
+        "the list changed, and the last tools/list answer it holds for the tool carries the definition the server enforces; or (by "
+        "notice) it has handled the list_changed notification for the server's present tool set, the application has then listed the "
+        "tools again (a listing started after that notification returned every page) and is not listing at the moment of the call. A "
+        "client that never listed the tool, whose cache was cleared by list_changed, or that holds only an outdated definition sends "
+        "no usable Mcp-Param-* header (lookupTool: 'nil if no such tool has been seen'; the SDK learns schemas from ListTools only) - "
+        "that is modelled (ExpectedSet) and compared as drift, not judged",
     ]
     out = vlib.outdir(PID)
     rep = json.load(open(replay))["replay"] if replay else None
@@ -142,100 +166,176 @@ def run(tier, seed, replay):
     do_gate = not rep or rep.get("table") == "gate"
     do_mirror = not rep or rep.get("table") == "mirror"
     nworkers = max(1, min(4, vlib.NCPU))
-
-    # ------------------------------------------------------------------ (a) model + cases
     K = GATE_K[tier]
-    cfg = open(os.path.join(vlib.SPEC, "HttpGate.cfg")).read().replace("K = 3", "K = %d" % K)
-    res = vlib.run_tlc("HttpGate", "HttpGate_run.cfg", extra_files={"HttpGate_run.cfg": cfg}, workers=nworkers,
-                       timeout=900, heap_gb=4 if tier == "quick" else 8)
-    vlib.tlc_must_pass(res, "HttpGate")
-    if not res.ok:
-        raise vlib.MachineryError("HttpGate design check failed: %s\n%s" % (res.violation, res.stdout[-2000:]))
-    grow = [p for p in res.printed if isinstance(p, dict) and "gatecase" in p]
-    if len({key(p["gatecase"]) for p in grow}) != len(grow) or not grow:
-        raise vlib.MachineryError("HttpGate exported %d cases with duplicates or none" % len(grow))
-    v.add_tlc("HttpGate(K=%d: tree of partial requests; Expected vs Holds on every leaf)" % K, res)
-    # vacuity: every fault is the first fault somewhere, every status / code of the table occurs, every handler is reached
-    firsts = collections.Counter(p["first"] for p in grow)
-    exps = collections.Counter((p["exp"]["status"], p["exp"]["code"]) for p in grow)
-    reach = {p["gatecase"]["kind"] for p in grow if p["exp"]["reach"] == "yes"}
-    need_first = {"host", "ctype", "accept", "size", "body", "version", "mirrorver", "mm", "mn", "mp", "none"}
-    need_exp = {(403, 0), (415, 0), (413, 0), (400, 0), (400, -32020), (400, -32022), (400, -32602), (200, 0), (202, 0)}
-    if need_first - set(firsts) or need_exp - set(exps) or reach != {"stateful", "stateless", "sse"}:
-        raise vlib.MachineryError("HttpGate vacuity: missing %s %s %s" % (need_first - set(firsts), need_exp - set(exps), reach))
-    gate_leads = {key(p["gatecase"]): p for p in grow if p["lead"]}
-    gate_info = {key(p["gatecase"]): p for p in grow}
-
-    # ------------------------------------------------------------------ (b) model + cases
-    wd = vlib.scratch("tlc-")
     hist_len, full_cross = MIRROR_HIST[tier]
-    mcfg = "CONSTANT HistLen = %d\nCONSTANT FullCross = %s\n" % (hist_len, full_cross)
-    mres = vlib.run_tlc("HeaderMirror", "HeaderMirror_run.cfg", workdir=wd, workers=1, timeout=600,
-                        extra_files={"HeaderMirror_run.cfg": mcfg})
-    vlib.tlc_must_pass(mres, "HeaderMirror")
-    if not mres.ok:
-        raise vlib.MachineryError("HeaderMirror design check failed: " + (mres.violation or mres.stdout[-2000:]))
-    minfo = [p for p in mres.printed if isinstance(p, dict) and "cases" in p][0]
-    v.add_tlc("HeaderMirror(design: encode/decode facts, history machine facts for every history of <= %d steps; "
-              "Agreement on the transcription -> leads)" % hist_len, mres)
-    mcases = vlib.read_ndjson(os.path.join(wd, "mirror_cases.ndjson"))
-    mirror_leads = {key(c) for c in vlib.read_ndjson(os.path.join(wd, "mirror_leads.ndjson"))}
-    mirror_certain = {key(c) for c in vlib.read_ndjson(os.path.join(wd, "mirror_certain.ndjson"))}
-    hist_info = {key(h["hist"]): h for h in vlib.read_ndjson(os.path.join(wd, "mirror_hists.ndjson"))}
-    if len(mcases) != minfo["cases"] or len(hist_info) != minfo["hists"]:
-        raise vlib.MachineryError("HeaderMirror exported %d of %d cases, %d of %d histories"
-                                  % (len(mcases), minfo["cases"], len(hist_info), minfo["hists"]))
-    # the baseline history first (a failure of a row under it is a failure of the value class, not of a history)
-    mcases.sort(key=lambda c: (c["hist"] != BASELINE, not hist_info[key(c["hist"])]["named"]))
-    # decision tables: one "state" per abstract case (the TLC runs above add their own counts)
-    v.cov["states"] += len(mcases)
-    v.cov["transitions"] += len(mcases)
+    max_len, race_len, notice_len, drift_len = RACE[tier]
+    greps, mreps = (5, 40) if rep else (GATE_REPS[tier], MIRROR_REPS[tier])
+    # (replay: a lead the model leaves open - which cached page lookupTool meets first - shows in ~1 of 8 calls)
 
-    gcases = [p["gatecase"] for p in grow]
-    greps, mreps = GATE_REPS[tier], MIRROR_REPS[tier]
-    # the baseline history is concretised more often: its extra repetitions are further input lines
-    mrun = mcases + [c for c in mcases if c["hist"] == BASELINE] * (MIRROR_BASE_REPS[tier] - mreps)
-    if rep:
-        greps, mreps = 5, 40   # (a lead the model leaves open - which cached page lookupTool meets first - shows in ~1 of 8 calls)
-        gcases = [rep["c"]] if do_gate else []
-        mcases = mrun = [rep["c"]] if do_mirror else []
-
-    # ------------------------------------------------------------------ replay on the real code
-    grows, mrows = [], []
-    if do_gate:
+    # ------------------------------------------------------------------ (a) model + cases, real code, monitor
+    def part_a():
+        a = {"tlc": []}
+        cfg = open(os.path.join(vlib.SPEC, "HttpGate.cfg")).read().replace("K = 3", "K = %d" % K)
+        res = vlib.run_tlc("HttpGate", "HttpGate_run.cfg", extra_files={"HttpGate_run.cfg": cfg}, workers=nworkers,
+                           timeout=900, heap_gb=4 if tier == "quick" else 8)
+        vlib.tlc_must_pass(res, "HttpGate")
+        if not res.ok:
+            raise vlib.MachineryError("HttpGate design check failed: %s\n%s" % (res.violation, res.stdout[-2000:]))
+        grow = [p for p in res.printed if isinstance(p, dict) and "gatecase" in p]
+        if len({key(p["gatecase"]) for p in grow}) != len(grow) or not grow:
+            raise vlib.MachineryError("HttpGate exported %d cases with duplicates or none" % len(grow))
+        a["tlc"].append(("HttpGate(K=%d: tree of partial requests; Expected vs Holds on every leaf)" % K, res))
+        # vacuity: every fault is the first fault somewhere, every status / code of the table occurs, every handler is reached
+        firsts = collections.Counter(p["first"] for p in grow)
+        exps = collections.Counter((p["exp"]["status"], p["exp"]["code"]) for p in grow)
+        reach = {p["gatecase"]["kind"] for p in grow if p["exp"]["reach"] == "yes"}
+        need_first = {"host", "ctype", "accept", "size", "body", "version", "mirrorver", "mm", "mn", "mp", "none"}
+        need_exp = {(403, 0), (415, 0), (413, 0), (400, 0), (400, -32020), (400, -32022), (400, -32602), (200, 0), (202, 0)}
+        if need_first - set(firsts) or need_exp - set(exps) or reach != {"stateful", "stateless", "sse"}:
+            raise vlib.MachineryError("HttpGate vacuity: missing %s %s %s" % (need_first - set(firsts), need_exp - set(exps), reach))
+        a["firsts"] = firsts
+        a["gate_leads"] = {key(p["gatecase"]): p for p in grow if p["lead"]}
+        a["gate_info"] = {key(p["gatecase"]): p for p in grow}
+        gcases = [p["gatecase"] for p in grow]
+        if rep:
+            gcases = [rep["c"]] if do_gate else []
+        a["gcases"], a["grows"], a["fails"] = gcases, [], []
+        if not do_gate:
+            return a
         gin, gobs = os.path.join(out, "gate_cases.ndjson"), os.path.join(out, "gate_obs.ndjson")
         vlib.write_ndjson(gin, gcases)
         rc, gout, wall = run_go("TestVerif_C12Gate", gin, gobs, seed, greps, 1500)
         if rc != 0:
             if sdk_panic(gout):
-                v.violation("gate:panic", "an HTTP handler panicked while serving a generated request", {"table": "gate", "output": gout[-3000:]})
-                return v.finish()
+                raise _Stop("gate:panic", "an HTTP handler panicked while serving a generated request", {"table": "gate", "output": gout[-3000:]})
             raise vlib.MachineryError("C12 gate harness failed:\n" + gout[-3000:])
         grows = vlib.read_ndjson(gobs)
         if len(grows) != len(gcases) * greps:
             raise vlib.MachineryError("gate harness ran %d of %d requests" % (len(grows), len(gcases) * greps))
-    if do_mirror:
+        a["grows"] = grows
+        if grows:
+            gslim = os.path.join(out, "gate_obs_mon.ndjson")
+            slim(grows, gslim, ("status", "code", "reached"))
+            fails, r1 = vlib.run_monitor("HttpGateMon", "HttpGateMon.cfg", gslim, timeout=1500, heap_gb=6 if tier == "quick" else 12)
+            a["tlc"].append(("HttpGateMon", r1))
+            a["fails"] = fails
+        return a
+
+    # ------------------------------------------------------------------ (b) model + cases, real code, monitor
+    def hist_tlc(cfgname, whatif):
+        text = open(os.path.join(vlib.SPEC, cfgname)).read()
+        text = text.replace("MaxLen = 6", "MaxLen = %d" % max_len).replace("RaceLen = 5", "RaceLen = %d" % race_len) \
+                   .replace("NoticeLen = 6", "NoticeLen = %d" % notice_len).replace("DriftLen = 3", "DriftLen = %d" % (0 if whatif else drift_len))
+        if "MaxLen = %d" % max_len not in text or "NoticeLen = %d" % notice_len not in text:
+            raise vlib.MachineryError("HeaderMirrorHist cfg template changed: " + cfgname)
+        if whatif:
+            text = text.replace("CONSTRAINT Export\n", "")
+        return vlib.run_tlc("HeaderMirrorHist", "HeaderMirrorHist_run.cfg", extra_files={"HeaderMirrorHist_run.cfg": text},
+                            workers=nworkers, timeout=900, heap_gb=4 if tier == "quick" else 8)
+
+    def part_b(pool):
+        b = {"tlc": []}
+        wd = vlib.scratch("tlc-")
+        mcfg = "CONSTANT HistLen = %d\nCONSTANT FullCross = %s\n" % (hist_len, full_cross)
+        f_hist = pool.submit(hist_tlc, "HeaderMirrorHist.cfg", False)
+        f_what = pool.submit(hist_tlc, "HeaderMirrorHist_coldnobump.cfg", True)
+        mres = vlib.run_tlc("HeaderMirror", "HeaderMirror_run.cfg", workdir=wd, workers=1, timeout=600,
+                            extra_files={"HeaderMirror_run.cfg": mcfg})
+        vlib.tlc_must_pass(mres, "HeaderMirror")
+        if not mres.ok:
+            raise vlib.MachineryError("HeaderMirror design check failed: " + (mres.violation or mres.stdout[-2000:]))
+        minfo = [p for p in mres.printed if isinstance(p, dict) and "cases" in p][0]
+        b["tlc"].append(("HeaderMirror(design: encode/decode facts, history machine facts for every history of <= %d steps; "
+                         "Agreement on the transcription -> leads)" % hist_len, mres))
+        mcases = vlib.read_ndjson(os.path.join(wd, "mirror_cases.ndjson"))
+        b["mirror_leads"] = {key(c) for c in vlib.read_ndjson(os.path.join(wd, "mirror_leads.ndjson"))}
+        b["mirror_certain"] = {key(c) for c in vlib.read_ndjson(os.path.join(wd, "mirror_certain.ndjson"))}
+        hist_info = {key(h["hist"]): h for h in vlib.read_ndjson(os.path.join(wd, "mirror_hists.ndjson"))}
+        race_rows = vlib.read_ndjson(os.path.join(wd, "mirror_racerows.ndjson"))
+        if len(mcases) != minfo["cases"] or len(hist_info) != minfo["hists"] or len(race_rows) != 4:
+            raise vlib.MachineryError("HeaderMirror exported %d of %d cases, %d of %d histories, %d race rows"
+                                      % (len(mcases), minfo["cases"], len(hist_info), minfo["hists"], len(race_rows)))
+        # the history machine as a behaviour spec: facts on every history of <= max_len steps, export of the racy ones
+        hres = f_hist.result()
+        vlib.tlc_must_pass(hres, "HeaderMirrorHist")
+        if not hres.ok:
+            raise vlib.MachineryError("HeaderMirrorHist design check failed: %s\n%s" % (hres.violation, hres.stdout[-3000:]))
+        b["tlc"].append(("HeaderMirrorHist(every history of <= %d steps over {list, wait, change, shrink, notify, send, answer, deliver} "
+                         "x ttl x page x subscription; design facts on each)" % max_len, hres))
+        races = [p["racehist"] for p in hres.printed if isinstance(p, dict) and "racehist" in p]
+        if len({key(h["hist"]) for h in races}) != len(races) or not races:
+            raise vlib.MachineryError("HeaderMirrorHist exported %d histories with duplicates or none" % len(races))
+        # sensitivity witness: without the generation bump on an empty cache the facts must fail
+        wres = f_what.result()
+        vlib.tlc_must_pass(wres, "HeaderMirrorHist what-if")
+        if wres.ok or wres.violation not in ("FactInformedHoldsCurrent", "FactNoticeSuffices"):
+            raise vlib.MachineryError("HeaderMirrorHist what-if (invalidate without a generation bump on an empty cache) did not "
+                                      "fail as it must: ok=%s violation=%s" % (wres.ok, wres.violation))
+        b["tlc"].append(("HeaderMirrorHist what-if coldnobump (sensitivity witness: the run must end with a violated fact, and does)", wres))
+        b["whatif"] = wres.violation
+        have = {key(c) for c in mcases}
+        nrace = 0
+        for hinfo in races:
+            hist_info.setdefault(key(hinfo["hist"]), hinfo)
+            for row in race_rows:
+                c = dict(row, hist=hinfo["hist"])
+                if key(c) not in have:
+                    have.add(key(c))
+                    mcases.append(c)
+                    nrace += 1
+        b["race"] = {"histories": len(races), "cases": nrace, "informed": sum(1 for h in races if h["informed"]),
+                     "by_notice": sum(1 for h in races if h["bynotice"])}
+        b["hist_info"] = hist_info
+        # the baseline history first (a failure of a row under it is a failure of the value class, not of a history)
+        mcases.sort(key=lambda c: (c["hist"] != BASELINE, not hist_info[key(c["hist"])]["named"]))
+        # the baseline history is concretised more often: its extra repetitions are further input lines
+        mrun = mcases + [c for c in mcases if c["hist"] == BASELINE] * (MIRROR_BASE_REPS[tier] - mreps)
+        if rep:
+            mcases = mrun = [rep["c"]] if do_mirror else []
+        b["mcases"], b["mrun"], b["mrows"], b["fails"] = mcases, mrun, [], []
+        if not do_mirror:
+            return b
         min_, mobs = os.path.join(out, "mirror_cases.ndjson"), os.path.join(out, "mirror_obs.ndjson")
         vlib.write_ndjson(min_, mrun)
         rc, gout, wall = run_go("TestVerif_C12Mirror", min_, mobs, seed, mreps, 1500)
         if rc != 0:
             if sdk_panic(gout):
-                v.violation("mirror:panic", "client or server panicked during a generated tools/call", {"table": "mirror", "output": gout[-3000:]})
-                return v.finish()
+                raise _Stop("mirror:panic", "client or server panicked during a generated tools/call", {"table": "mirror", "output": gout[-3000:]})
             raise vlib.MachineryError("C12 mirror harness failed:\n" + gout[-3000:])
         mrows = vlib.read_ndjson(mobs)
         if len(mrows) != len(mrun) * mreps:
             raise vlib.MachineryError("mirror harness ran %d of %d calls" % (len(mrows), len(mrun) * mreps))
+        b["mrows"] = mrows
+        if mrows:
+            mslim = os.path.join(out, "mirror_obs_mon.ndjson")
+            slim(mrows, mslim, ("accepted", "same", "code", "hdr", "own", "sibok", "via"))
+            fails, r2 = vlib.run_monitor("HeaderMirrorMon", "HeaderMirrorMon.cfg", mslim, timeout=900)
+            b["tlc"].append(("HeaderMirrorMon", r2))
+            b["fails"] = fails
+        return b
 
-    # ------------------------------------------------------------------ judge (TLA+ monitors)
+    with concurrent.futures.ThreadPoolExecutor(max_workers=4) as pool:
+        fa = pool.submit(part_a)
+        fb = pool.submit(part_b, pool)
+        try:
+            a, b = fa.result(), fb.result()
+        except _Stop as st:
+            v.violation(*st.args3)
+            return v.finish()
+    for name, res in a["tlc"] + b["tlc"]:
+        v.add_tlc(name, res)
+    firsts, gate_leads, gate_info, gcases, grows = a["firsts"], a["gate_leads"], a["gate_info"], a["gcases"], a["grows"]
+    mirror_leads, mirror_certain, hist_info = b["mirror_leads"], b["mirror_certain"], b["hist_info"]
+    mcases, mrun, mrows = b["mcases"], b["mrun"], b["mrows"]
+    # decision tables: one "state" per abstract case (the TLC runs above add their own counts)
+    v.cov["states"] += len(mcases)
+    v.cov["transitions"] += len(mcases)
+
+    # ------------------------------------------------------------------ judge (verdicts of the TLA+ monitors)
     gfail_lines, mfail_lines = set(), set()
     if grows:
-        gslim = os.path.join(out, "gate_obs_mon.ndjson")
-        slim(grows, gslim, ("status", "code", "reached"))
-        fails, r1 = vlib.run_monitor("HttpGateMon", "HttpGateMon.cfg", gslim, timeout=1500, heap_gb=6 if tier == "quick" else 12)
-        v.add_tlc("HttpGateMon", r1)
         by_line = collections.defaultdict(dict)
-        for f in fails:
+        for f in a["fails"]:
             by_line[f["line"]][f["monfail"]] = f
         for line in sorted(by_line):
             e = grows[line - 1]
@@ -259,12 +359,8 @@ def run(tier, seed, replay):
             if k in ran and k not in failed_cases:
                 v.drift.append("model lead not reproduced on the real handlers: first=%s cls=%s %s" % (p["first"], p["cls"], k))
     if mrows:
-        mslim = os.path.join(out, "mirror_obs_mon.ndjson")
-        slim(mrows, mslim, ("accepted", "same", "code", "hdr", "own", "sibok", "via"))
-        fails, r2 = vlib.run_monitor("HeaderMirrorMon", "HeaderMirrorMon.cfg", mslim, timeout=900)
-        v.add_tlc("HeaderMirrorMon", r2)
         by_line = collections.defaultdict(dict)
-        for f in fails:
+        for f in b["fails"]:
             by_line[f["line"]][f["monfail"]] = f
         mfail_lines = {line for line in by_line if "Agreement" in by_line[line]}
         # rows (schema shape, value class) that fail under the baseline history: their failures elsewhere are not
@@ -276,17 +372,20 @@ def run(tier, seed, replay):
                 h = e["c"]["hist"]
                 info = hist_info.get(key(h))
                 by_history = h != BASELINE and key(row_of(e["c"])) not in base_failed and info is not None
+                why = ("the client had handled the list_changed notification for the server's present tool set and listed the tools again "
+                       "afterwards" if by_history and info["src"].get("told") else
+                       "the last tools/list answer the client obtained for the tool carries the definition the server enforces")
                 v.violation(mirror_sig(e, info["src"] if by_history else None),
                             "the SDK client's own tools/call for a schema-valid %s argument (class %s, annotation depth %d) "
-                            "with %d annotated sibling(s), made after the history [%s] (the last tools/list answer the client obtained for the "
-                            "tool carries the definition the server enforces), was not accepted unaltered by the SDK server, or a header did "
-                            "not carry its own parameter's value (code %d, header form '%s', own=%s, siblings ok=%s, request built from "
-                            "definition: %s)"
-                            % (e["c"]["ty"], e["c"]["val"], e["c"]["depth"], e["c"]["nsib"], hist_name(h), e["o"]["code"], e["o"]["hdr"],
+                            "with %d annotated sibling(s), made after the history [%s] (%s), was not accepted unaltered by the SDK server, or a "
+                            "header did not carry its own parameter's value (code %d, header form '%s', own=%s, siblings ok=%s, request built "
+                            "from definition: %s)"
+                            % (e["c"]["ty"], e["c"]["val"], e["c"]["depth"], e["c"]["nsib"], hist_name(h), why, e["o"]["code"], e["o"]["hdr"],
                                e["o"]["own"], e["o"]["sibok"], e["o"]["via"]),
                             {"table": "mirror", "c": e["c"], "o": e["o"], "conc": e.get("conc")})
             elif "drift" in by_line[line]:
-                v.drift.append("mirror outcome is not in HeaderMirrorDefs!ExpectedSet: %s got %s" % (key(e["c"]), key(e["o"])))
+                v.drift.append("mirror outcome is not in HeaderMirrorDefs!ExpectedSet: %s got %s (%s)"
+                               % (key(e["c"]), key(e["o"]), (e.get("conc") or {}).get("history")))
         failed_cases = {key(mrows[l - 1]["c"]) for l in mfail_lines}
         ran = {key(r["c"]) for r in mrows}
         for k in sorted(mirror_certain):
@@ -298,16 +397,29 @@ def run(tier, seed, replay):
             if k in ran:
                 open_leads[key(json.loads(k)["hist"])].add(k)
         for hk, ks in sorted(open_leads.items()):
-            if not ks & failed_cases:
+            # (the open outcome shows in about 1 of 8 calls: with fewer than 40 chances its absence says nothing)
+            if len(ks) >= 40 and not ks & failed_cases:
                 v.drift.append("model lead (outcome left open by the model) not reproduced by the real client/server in any of %d "
                                "cases of history %s" % (len(ks), hist_name(json.loads(hk))))
         if not rep:
             # vacuity of the history dimension on the real code: every definition kind was seen on the wire, informed and
-            # uninformed histories ran, a second list was answered from the cache and fetched again
+            # uninformed histories ran, a second list was answered from the cache and fetched again; split listings: requests and
+            # answers were really held, notifications really kept back, and calls of clients informed by notice were accepted
             vias = collections.Counter(r["o"]["via"] for r in mrows)
             inf = collections.Counter(hist_info[key(r["c"]["hist"])]["informed"] for r in mrows)
             if not (vias["current"] and vias["stale"] and vias["none"] and inf[True] and inf[False]):
                 raise vlib.MachineryError("HeaderMirror vacuity on the real code: via=%s informed=%s" % (dict(vias), dict(inf)))
+            trails = " ".join((r.get("conc") or {}).get("history", "") for r in mrows if hist_info[key(r["c"]["hist"])].get("racy"))
+            need = ["->sent:p1", "->sent:pN", "->ans:p1", "->ans:pN", "deliver->idle", "notify(1)", "notify(2)"]
+            told_ok = sum(1 for r in mrows if hist_info[key(r["c"]["hist"])].get("bynotice") and hist_info[key(r["c"]["hist"])].get("racy")
+                          and r["o"]["accepted"] and r["o"]["via"] == "current")
+            skipped = trails.count("(nothing there") + trails.count("(listing in progress")
+            if [n for n in need if n not in trails] or not told_ok:
+                raise vlib.MachineryError("HeaderMirror vacuity of the split listings on the real code: missing %s, accepted calls of clients "
+                                          "informed by notice after a race: %d" % ([n for n in need if n not in trails], told_ok))
+            if skipped:
+                v.drift.append("split listings: %d step(s) of generated histories found nothing to act on in the real run (the real "
+                               "client's cache answered / missed where the model's did not)" % skipped)
 
     # ------------------------------------------------------------------ evidence
     def nondefault(c):
@@ -320,14 +432,17 @@ def run(tier, seed, replay):
     v.cov["rule"] = ("gate: every abstract POST request at most K=%d dimensions (of 11) away from the handler's well-formed request, "
                      "plus the 2^11 default/representative-fault product, on stateful, stateless and SSE handlers, x%d seeded "
                      "concretisations; mirror: complete (depth 1..8 x type x header-name x 0..2 annotated siblings x value class) table under the "
-                     "baseline history (tools listed just now) x%d seeded concretisations, 14 further named client-side histories (never "
+                     "baseline history (tools listed just now) x%d seeded concretisations, 18 further named client-side histories (never "
                      "listed, within / after a positive ttlMs, no ttl and long ago, later page, tool changed on the server with and "
-                     "without re-listing / cache hit / list_changed notification, tool moved to another page) x %s, and every "
-                     "well-formed history of <= %d steps over {list, wait, change, shrink} x ttl x page x subscription x 10 probe rows; "
-                     "non-trivial = at least one faulty / non-default class (gate) or a value class other than plain ASCII / small / "
-                     "true or a history other than the baseline (mirror)"
+                     "without re-listing / cache hit / list_changed notification, tool moved to another page, a tools/list answer that "
+                     "predates a change delivered after it / after its notification on a cold, an expired and a two-page cache) x %s, every "
+                     "well-formed history of <= %d steps over {list, wait, change, shrink, notify, send, answer, deliver} x ttl x page x "
+                     "subscription x 10 probe rows (4 when a listing is split), and every history of <= %d steps with something falling inside a "
+                     "listing after which the client is informed (<= %d steps when informed by notice, <= %d steps: informed or not) x 4 rows; non-trivial = at least one faulty / "
+                     "non-default class (gate) or a value class other than plain ASCII / small / true or a history other than the baseline "
+                     "(mirror)"
                      % (K, greps, MIRROR_BASE_REPS[tier], "the complete table" if full_cross == "TRUE" else "120 pivot rows (depth 1 and 3, 0..1 siblings, every value class)",
-                        hist_len))
+                        hist_len, race_len, notice_len, drift_len))
     v.cov["exhaustive"] = False  # the gate product is K-bounded (the mirror table is complete)
     v.cov["gate"] = {"K": K, "cases": len(gcases), "requests": len(grows), "reached": sum(1 for r in grows if r["o"]["reached"]),
                      "first_fault": dict(firsts) if not rep else {}, "model_leads": len(gate_leads),
@@ -336,6 +451,8 @@ def run(tier, seed, replay):
                        "model_leads": len(mirror_leads), "header_forms": dict(collections.Counter(r["o"]["hdr"] for r in mrows)),
                        "histories": len({key(r["c"]["hist"]) for r in mrows}),
                        "informed_calls": sum(1 for r in mrows if hist_info.get(key(r["c"]["hist"]), {}).get("informed")),
+                       "informed_by_notice_calls": sum(1 for r in mrows if hist_info.get(key(r["c"]["hist"]), {}).get("bynotice")),
+                       "split_listing_histories": b["race"], "whatif_coldnobump_violates": b["whatif"],
                        "definition_used": dict(collections.Counter(r["o"]["via"] for r in mrows)),
                        "exhaustive": not rep}
     for r in (grows[:: max(1, len(grows) // 3)][:3] + mrows[:: max(1, len(mrows) // 3)][:3]):
